@@ -78,6 +78,26 @@ D = {
  "C20-d": ("modifier flow_task template: dependency de-duplication with $prev := 0 drops task0.job", "modifier mode; consumer whose first provider is the file's first task; >= 2 workers"),
  "C20-a": ("modifier flow_task template: recover assigns a local err", "modifier mode; a task panics"),
  "C20-b": ("modifier mode guesses unnamed import names from the path", "modifier mode; unnamed import of .../debug/v2 (package debug) colliding with a generated import"),
+ "C01-d": ("compile.go scheduleFlowAndToposort: providers resolved through a map keyed by types.TypeString", "a type produced under one spelling and consumed under another ([]byte / []uint8, any / interface{}); provider listed first; >= 2 workers"),
+ "C03-d": ("worker pool started as a chain (`more` parameter); the replacement of a dead worker inherits `more` and restarts the chain", "ContinueOnError; several jobs ending in Goexit on a worker other than the chain tail; N >= 2"),
+ "C05-d": ("loop exit drain made non-blocking with a `stopped` flag checked by Enqueue; the flag is set after the last poll", "fail-fast; a failure while the caller has >= 2 jobs to enqueue, both Enqueues landing between the last poll and stopped.Store"),
+ "C06-d": ("donec buffer capped at 64 instead of Concurrency", "Concurrency > 64, fail-fast, a failure while >= 66 jobs are in flight"),
+ "C07-d": ("compile.go: providers resolved through a map keyed by types.TypeString (same mechanism as C01-d, found independently)", "spelling variants of one type on both sides; failing producer; >= 2 workers"),
+ "C08-d": ("loop enqueue arm: `if job.remaining == 0 || job.invalid` puts an invalid job on the ready list while dependencies are outstanding", "ContinueOnError; a job with >= 2 dependencies enqueued after one failed and was recorded while another still runs; another job outstanding"),
+ "C09-d": ("templates: a sync.WaitGroup of in-flight instrumented tasks awaited in the deferred epilogue", "an instrumented task still running when the context ends"),
+ "C11-d": ("templates: predicate gate renamed skipN with inverted sense; a panicking predicate leaves it 'run'", "a predicate that panics"),
+ "C12-d": ("EmitterStack reuses the first argument's slice when it is already a stack (append into the shared backing array)", "a shared EmitterStack with spare capacity as first of >= 2 WithEmitter; executions that overlap in time"),
+ "C19-d": ("loop enqueue arm fast path: non-blocking send on readyc without the ongoing < concurrency gate", "all workers busy, a result unread in donec, a dependency-free job enqueued, a state report before the done arm"),
+ "C02-e": ("compile.go: a predicate function shared by several tasks is compiled once, keyed by *types.Func (receiver ignored)", "two tasks gated by the same method of different receivers whose answers differ"),
+ "C10-e": ("slice/map templates: loop-variable copies emitted only when the module's go version is below 1.22", "module on go >= 1.22 and a directive file pinned lower by `//go:build cff && go1.21`; more elements than free workers"),
+ "C14-e": ("cycle.go walks fn.inputs() (no predicate sentinel) + toposort marks nodes on entry", "a cycle closed by a task -> own-predicate edge"),
+ "C15-e": ("parallel/slice.go.tmpl: the collection is emitted with rawExpr, i.e. evaluated in the body instead of the prologue", "a Parallel with other tasks or later arguments and a collection expression with side effects; or a collection named like a generated identifier"),
+ "C16-e": ("cmd/cff run: matched -file entries are deleted from the map and `len(outputs) > 0` replaces hadFiles: the filter lapses after the last match", "-file selection with an unselected directive file visited later, or test files in the package"),
+ "C17-e": ("writeGenerated skips the write when the existing output starts with the new text (io.ReadFull of len(src) bytes)", "regeneration over an older, longer output of which the new text is a strict prefix"),
+ "C18-e": ("flow.go.tmpl: the deferred TaskSkipped sweep is emitted only for flows with InstrumentFlow", "a flow without InstrumentFlow, an instrumented task whose predicate is false"),
+ "C04-e": ("parallel/map.go.tmpl: a MapEnd function of type func(context.Context) error is scheduled directly, without the closure holding the recover", "a panic in a MapEnd function with exactly that signature"),
+ "C13-e": ("compile.go isPackagePathEquivalent collapsed to a suffix test", "a file importing `time` and a local package whose path ends in /time, a type of the latter as flow value type"),
+ "C20-e": ("process.go: InstrumentAllTasks only passed on in base mode", "-genmode=source-map together with -auto-instrument on a flow with InstrumentFlow and an uninstrumented task"),
 }
 rows = []
 for sid in sorted(D):
